@@ -139,6 +139,13 @@ def forall(lo, hi, body, name="q"):
     return z3.ForAll([q], z3.Implies(z3.And(integer(lo) <= q, q < integer(hi)), boolean(b)))
 
 
+def forall2(lo, hi, body, name="q"):
+    """forall a, b in [lo, hi): body(a, b)  -- one quantifier over two variables (z3 infers a multi-pattern)"""
+    a, b = fresh(name + "a", I), fresh(name + "b", I)
+    return z3.ForAll([a, b], z3.Implies(z3.And(integer(lo) <= a, a < integer(hi), integer(lo) <= b, b < integer(hi)),
+                                        boolean(body(a, b))))
+
+
 def exists(lo, hi, body, name="q"):
     q = fresh(name, I)
     b = body(q)
